@@ -25,6 +25,7 @@ type c17Scenario struct {
 	tol   int  // ms of tolerance (flush interval, re-establishing a region)
 	zero  bool // the loop's first pass does not wait (establishRegion)
 	batch bool
+	two   bool // two regions on two servers, a batch with one call each
 	setup func(cl *verifsim.Cluster, mark func())
 	opts  []Option
 	// run for this much virtual time
@@ -133,6 +134,21 @@ func TestVerifC17(t *testing.T) {
 			cl.ZKMark = mark
 		}},
 	}
+	// a batch over two servers: one region answers retry-later for ever, the other one "not serving" (its probe is fine, so it is
+	// re-established at once): every round must still back off, whichever server's group is waited for last
+	twoServers := c17Scenario{name: "retry-later-on-one-server-not-serving-on-the-other", tol: 4, batch: true, two: true,
+		setup: func(cl *verifsim.Cluster, mark func()) {
+			cl.ActionHook = func(rs *verifsim.RS, r *verifsim.Region, op string, row []byte) string {
+				if len(row) == 0 || row[len(row)-1] != '!' {
+					return ""
+				}
+				if rs.Addr == "rs1" {
+					mark()
+					return verifsim.ExcTooBusy
+				}
+				return verifsim.ExcNotServing
+			}
+		}}
 	var all []c17Scenario
 	for _, s := range scenarios {
 		all = append(all, s)
@@ -144,6 +160,11 @@ func TestVerifC17(t *testing.T) {
 		}
 		all = append(all, b)
 	}
+	for rep2 := 0; rep2 < 6; rep2++ { // the order in which SendBatch waits for the servers is Go map order: several runs
+		x := twoServers
+		x.name = fmt.Sprintf("%s/%d", twoServers.name, rep2)
+		all = append(all, x)
+	}
 	for _, s := range all {
 		if only := os.Getenv("VERIF_ONLY"); only != "" && only != s.name {
 			continue
@@ -153,7 +174,12 @@ func TestVerifC17(t *testing.T) {
 			cl := verifsim.NewCluster(tr)
 			cl.AddServer("ms")
 			cl.AddServer("rs1")
-			cl.CreateTable("t", nil, []string{"rs1"})
+			if s.two {
+				cl.AddServer("rs2")
+				cl.CreateTable("t", [][]byte{[]byte("m")}, []string{"rs1", "rs2"})
+			} else {
+				cl.CreateTable("t", nil, []string{"rs1"})
+			}
 			t0 := time.Now()
 			var times []int
 			ctx, cancel := context.WithCancel(context.Background())
@@ -170,7 +196,11 @@ func TestVerifC17(t *testing.T) {
 			done := make(chan struct{})
 			go func() {
 				defer close(done)
-				if s.batch {
+				if s.two {
+					p1, _ := hrpc.NewPut(ctx, []byte("t"), []byte("a!"), map[string]map[string][]byte{"f": {"q": []byte("v")}})
+					p2, _ := hrpc.NewPut(ctx, []byte("t"), []byte("n!"), map[string]map[string][]byte{"f": {"q": []byte("v")}})
+					c.SendBatch(ctx, []hrpc.Call{p1, p2})
+				} else if s.batch {
 					p, _ := hrpc.NewPut(ctx, []byte("t"), []byte("k"), map[string]map[string][]byte{"f": {"q": []byte("v")}})
 					c.SendBatch(ctx, []hrpc.Call{p})
 				} else {
@@ -207,6 +237,7 @@ func TestVerifC17(t *testing.T) {
 			// let the failure end so that every retry loop can wind down, then close
 			cl.Lock()
 			cl.Rules = nil
+			cl.ActionHook = nil
 			cl.ZKErr = nil
 			cl.Servers["rs1"].RefuseDial = false
 			cl.Unlock()
